@@ -3,7 +3,7 @@
 EXTENDS MixStep, Json, IOUtils
 Log == ndJsonDeserialize(IOEnv.TRACE_FILE)
 VARIABLE k
-TInit == k \in 1..Len(Log) /\ xs = Log[k].xs /\ ws = Log[k].ws /\ mold = Log[k].mold /\ burn = Log[k].burn
+TInit == k \in 1..Len(Log) /\ xs = Log[k].xs /\ ws = Log[k].ws /\ mold = Log[k].mold /\ burn = Log[k].burn /\ far = Log[k].far
 TNext == UNCHANGED <<k, vars>>
 TSpec == TInit /\ [][TNext]_<<k, vars>>
 Rec == Log[k]
@@ -20,5 +20,5 @@ Conforms == Admissible =>
         \* a vector-valued individual variable (two components: the values and their opposites), one mean per component and cluster
         /\ Same(Rec.mean_vec[1][c], MeanRule(c))
         /\ Same(Rec.mean_vec[2][c], Neg(MeanRule(c)))
-Covered == IOEnv.EXPECT_COUNT = "0" \/ Cardinality({<<Log[i].xs, Log[i].ws, Log[i].mold, Log[i].burn>> : i \in 1..Len(Log)}) = atoi(IOEnv.EXPECT_COUNT)
+Covered == IOEnv.EXPECT_COUNT = "0" \/ Cardinality({<<Log[i].xs, Log[i].ws, Log[i].mold, Log[i].burn, Log[i].far>> : i \in 1..Len(Log)}) = atoi(IOEnv.EXPECT_COUNT)
 =============================================================================
